@@ -44,7 +44,13 @@ func (e *eventStream) Receive(c *Context) {
 			level, msg, attr := logMsg.Log()
 			slog.Log(context.Background(), level, msg, attr...)
 		}
-		for _, sub := range e.subs {
+		for key, sub := range e.subs {
+			// Drop local subscribers that are gone. Forwarding to them results in a
+			// DeadLetterEvent, which is an event again: an endless loop.
+			if c.engine.isLocalMessage(sub) && c.engine.Registry.get(sub) == nil {
+				delete(e.subs, key)
+				continue
+			}
 			c.Forward(sub)
 		}
 	}
